@@ -208,13 +208,18 @@ CLAIMED["C03"] = dict(
     design="DESIGN.md section 6, C03",
 )
 CLAIMED["C17"] = dict(
-    text="Lean 4 counting theorem over the script generator, for every matching and any size: at most |R| inserts, |R| renames, "
-    "|R| text updates and |R| tail updates (C17_bounds_partial); the attribute phase emits attribute actions only. PARTIAL: the "
-    "remaining bounds (deletes <= |L|, moves <= 2|R|, attribute actions), 'no created node is deleted' and 'every action changes "
-    "the document' are decided per run: counting oracle on the real script plus a strict replay in the Lean interpreter that "
-    "flags any action leaving the id-tree or the document value unchanged. Known finding R1 (moves past value-identical siblings).",
+    text="Lean 4 theorems over the script generator, any size and option set: at most |R| inserts, |R| renames, |R| text and "
+    "|R| tail updates for every matching (C17_bounds_partial); at most 2|R| moves and |L| deletes for every one-to-one matching "
+    "(C17_moves_deletes_bounds: the aligned children of a node map one-to-one into the children of its partner; the number of "
+    "partnerless nodes of the working copy never grows); no node created by the script is deleted by it "
+    "(C17_created_never_deleted: in the strict replay every deleteNode hits a node with an id below the first fresh id); the "
+    "attribute phase emits attribute actions on its node only. PARTIAL: the attribute-action bound summed over the document "
+    "and 'every action changes the document' are decided per run: counting oracle on the real script plus a strict replay in "
+    "the Lean interpreter that flags any action leaving the id-tree or the document value unchanged. Known finding R1 (moves "
+    "past value-identical siblings).",
     note="Trusted: Lean kernel and standard axioms; model validated by U5; replay oracle uses the Lean strict interpreter.",
-    technique="Lean 4 proof (counting invariant over the generator fold) + correspondence + change-detecting replay oracle",
+    technique="Lean 4 proof (counting invariants threaded through the generator, strict-replay target tracking) + correspondence + "
+    "change-detecting replay oracle",
     design="DESIGN.md section 6, C17",
 )
 
